@@ -84,6 +84,8 @@ Step ==
                  [] OTHER -> FALSE
             /\ (e.e = "oom" => we = Cap /\ ws = 0)
             /\ UNCHANGED <<buf, ws, we, rd, pend>>
+       \* anything else (e.g. a `poison` hook in a receiver run: a failed read never poisons, C09 lets it be retried) is not a step
+       [] OTHER -> FALSE
   /\ ei' = ei + 1 /\ UNCHANGED ri
 
 Next == Step \/ NextRun
